@@ -50,6 +50,17 @@ func c14Directed(rng *RNG) []Case {
 				}
 				lines = append(lines, fmt.Sprintf("mem deletetag %s %s", tok("a"), tok("latest")))
 			}
+			// re-pushing the tagged content under another media type (untagged, or under a new tag)
+			// must not change what the existing tag means (F19)
+			{
+				tm := byName[chain[tagged]]
+				lines = append(lines, linePushManifest("a", "", tm.data, mtOpaque))
+				lines = append(lines, linePushManifest("a", "other", tm.data, mtOpaque))
+				for _, b := range u.blobs {
+					lines = append(lines, fmt.Sprintf("mem deleteblob %s %s", tok("a"), tok(sha256Digest(b))))
+				}
+				lines = append(lines, fmt.Sprintf("mem gettag %s %s", tok("a"), tok("latest")))
+			}
 			// re-tagging with other content must be refused; same content allowed
 			other := byName["opaque"]
 			lines = append(lines, linePushManifest("a", "latest", other.data, other.mt))
